@@ -804,7 +804,15 @@ Proof.
   { intros c f Hf. unfold with_session. destruct (aget (h_conns h) c) as [cn|] eqn:Hc; [|apply rel_refl].
     destruct (c_sess cn) as [x|]; [|apply rel_refl]. destruct (get_sess h x) as [s|] eqn:Hs; [|apply rel_refl]. eauto. }
   pose proof (rel_refl sid h) as R0.
-  destruct o as [c addr|c hl|c rn rs rep|c to tag|c to tag|c|c|secs|b signas room q|c q|c to mk stream media|tok ok|c kindn key val|pos]; cbn [step].
+  destruct o as [c addr|c hl|c rn rs rep|c to tag|c to tag|c|c|secs|b signas room q|c q|c to mk stream media|tok ok|c kindn key val|pos|c hl late]; cbn [step].
+  15:{ (* a hello whose connection is closed while it is processed: the connection has no session *)
+    destruct (aget (h_conns h) c) as [cn|]; [|exact R0]. destruct (c_sess cn); [exact R0|].
+    destruct hl as [b u rej|b u t|b tok f d|i]; try exact R0.
+    - destruct rej; [exact R0|]. destruct (h_nb h <=? b); [exact R0|].
+      match goal with |- context [close_conn ?hh c] => destruct (close_conn hh c) as [h2 o2] eqn:H2 end. cbn [fst].
+      rewrite (fst_eq _ _ _ H2). eapply rel_trans; [|apply rel_of_rel0, rel0_close_conn].
+      destruct late; [apply rel_bump; [reflexivity|cbn; pose proof (next_id_gt h); lia]|apply rel_refl].
+    - apply rel_of_rel0, rel0_close_conn. }
   - destruct (aget (h_conns h) c); [exact R0|]. cbn [fst]. apply rel_of_rel0, rel0_eq; reflexivity.
   - destruct (aget (h_conns h) c) as [cn|]; [|exact R0]. destruct (c_sess cn); [exact R0|].
     eapply rel_trans; [|apply rel_do_hello]. apply rel_of_rel0, rel0_eq; reflexivity.
